@@ -5,6 +5,8 @@ import AranyaV.Model.Cli
 Requests:
 * `doc <hex>`    — the policy document of the case (only the harness needs it) → `ok`
 * `nofile`       — the case has no input file → `ok`
+* `vparts <b…>`  — `validate` on the module of the current document, whose labels (in label order)
+                   have these verdicts (1 = that label fails) → `ret=<0|1>`
 * `cli <read> <parse> <compile> <vret> <noval> <stub> <create>` (seven 0/1 flags)
                  → `exit=<code> wrote=<0|1>`
 -/
@@ -16,6 +18,10 @@ def step (u : Unit) (toks : List String) : Unit × String :=
   match toks with
   | ["doc", h] => (u, if isHex h then "ok" else "bad-op")
   | ["nofile"] => (u, "ok")
+  | "vparts" :: bits =>
+    match bits.mapM Driver.bool? with
+    | some bs => (u, s!"ret={if validateOf bs then 1 else 0}")
+    | none => (u, "bad-op")
   | ["cli", r, p, c, v, nv, s, cr] =>
     match Driver.bool? r, Driver.bool? p, Driver.bool? c, Driver.bool? v, Driver.bool? nv,
           Driver.bool? s, Driver.bool? cr with
